@@ -22,6 +22,8 @@ silence a finding.  Deliberate exclusions (DESIGN.md sections 4, 5 and the build
 Every choice comes from the Rng that is passed in (SplitMix64, vlib.Rng).
 """
 
+import os
+
 ESC = b'\x1b'
 OPTIONS = ['ai', 'aw', 'hist', 'hl', 'hll', 'ic', 'lim', 'order', 'ru', 'shape', 'td', 'wa',
            'autoindent', 'highlight', 'highlightline', 'ignorecase', 'linelimit', 'ruler', 'textdirection', 'writeany', 'history', 'autowrite']
@@ -631,7 +633,274 @@ def vi_atom(r, nlines):
     return vi_excmd(r, nlines)
 
 
-VI_TAIL = ESC * 4 + b':q!\n' + ESC + b':q!\n'
+# the ':' prompt of vi() keeps its keymap from one prompt to the next: ^E (English keymap) in front of the quit command,
+# or a ^F typed in an earlier prompt turns q into a Persian letter and the quit command is never given
+VI_TAIL = ESC * 4 + b':\x05q!\n' + ESC + b':\x05q!\n'
+
+
+# ---------------------------------------------------------------------------------------------
+# insert-mode helpers after long words (round e: vi_help's char tag[128] was never reached -- ^A was only
+# ever typed after words of a few bytes).  Aimed at the fixed stack buffers behind the keys of led_line():
+#   ^A     vi_help(): the last word of the text before the cursor is copied into tag[128]; a second ^A inserts cmp[64]
+#   ^T ^D  led_input()'s ai[128] (also filled from the indentation of the line that o / O / A work on)
+#   ^R ^P  a register of any length is appended to the line;  ^K digraphs, ^V literal, ^E ^F keymap switch
+#   : / ?  prompts with history (se hist): led_match() fills cmp[64] from the history on every key
+# and at every other control key of led_line() (the rest of 1..31 is inserted or ignored), ^Z and NUL excepted.
+
+WORD1 = ['a', 'b', 'x', 'e', 'k', '0', '9', '_', 'A']
+WORD2 = ['é', 'ü', 'ß', 'ñ', 'я', 'ا', 'ل', 'ب', 'ש', 'ל', '\u0301', '\u0651']      # two bytes: Latin, Cyrillic, Arabic, Hebrew, combining marks
+WORD3 = ['中', '文', 'あ', 'क', '€', 'Ａ', '\u200c', '\u200d']                        # three bytes: wide, Devanagari, zero-width
+WORD4 = ['\U0001d11e', '\U0001f600', '\U00020000']                                   # four bytes
+TAGLENS = [100, 120, 125, 126, 126, 127, 127, 127, 128, 128, 128, 129, 129, 130, 131, 135, 190, 253, 254, 255, 256, 257,
+           380, 381, 382, 384, 507, 508, 509, 512, 600, 1000]
+TAGCHARS = [100, 125, 126, 127, 127, 128, 128, 129, 130, 200, 300]
+
+
+def long_word(r):
+    """One word in the sense of uc_kind() (letters, digits, '_' and every non-ASCII character), its length aimed at a
+    128-byte buffer: a byte length around 127, or a character count around 127 (then up to four times as many bytes),
+    and multiples; one- to four-byte characters pure and mixed.  str."""
+    cls = r.choice(['1', '2', '3', '4', '12', '13', '14', '23', '24', '34', '1234', '1234', 'rtl'])
+    pools = {'1': WORD1, '2': WORD2, '3': WORD3, '4': WORD4}
+    alphabet = ['ا', 'ل', 'ب', 'ש', 'م', 'ی'] if cls == 'rtl' else [c for k in cls for c in pools[k]]
+    if r.chance(1, 3):
+        alphabet = [r.choice(alphabet)]                     # one character repeated
+    if r.chance(1, 3):
+        return ''.join(r.choice(alphabet) for _ in range(r.choice(TAGCHARS)))
+    target = r.choice(TAGLENS)
+    out, nb = [], 0
+    while nb < target:
+        c = r.choice(alphabet)
+        n = len(c.encode('utf-8'))
+        if nb + n > target:
+            c, n = r.choice(WORD1), 1
+        out.append(c)
+        nb += n
+    return ''.join(out)
+
+
+def long_indent(r):
+    unit = r.choice([' ', '\t', ' \t', '  '])
+    n = r.choice([100, 120, 125, 126, 127, 127, 128, 128, 129, 130, 135, 200, 300])
+    return (unit * n)[:n]
+
+
+OTHER_CTL = [c for c in range(1, 32) if c not in (3, 26, 27, 10, 13)]          # not ^C / ESC (they end the insert), not ^Z
+
+
+def helper_keys(r):
+    """Keys typed inside an insert or a prompt (bytes); none of them leaves it."""
+    out = b''
+    for _ in range(r.choice([1, 1, 1, 2, 2, 3, 5])):
+        t = r.below(24)
+        if t < 8:
+            out += ctl('a')
+        elif t < 10:
+            out += ctl('a') + ctl('a')
+        elif t == 10:
+            out += ctl('k') + r.choice([b'e:', b'a*', b'12', b'zz', b'\x1bx', ctl('k'), b'o:', b'Eu', b'ss', ctl('a') + b'x', b'\xc3\xa9x'])
+        elif t == 11:
+            out += ctl('v') + r.choice([b'a', b'\x1b', b'\t', b'\x01', b'\n', b'\xc3\xa9', ctl('a'), ctl('k'), ctl('v')])
+        elif t == 12:
+            out += ctl('r') + r.choice([b'a', b'"', b'x', b'.', b':', b'\x1b', b'~', b'1', b'9', ctl('a'), b'\xc3\xa9'])
+        elif t == 13:
+            out += ctl('p')
+        elif t == 14:
+            out += r.choice([ctl('e'), ctl('f')])
+        elif t == 15:
+            out += r.choice([ctl('t'), ctl('d')]) * r.choice([1, 2, 3, 126, 127, 128, 130])
+        elif t == 16:
+            out += r.choice([ctl('w'), ctl('u'), b'\x08', b'\x7f']) * r.choice([1, 1, 2])
+        elif t == 17:
+            out += bytes([r.choice(OTHER_CTL)])
+        elif t == 18:
+            out += b'\n'
+        elif t == 19:
+            out += r.choice([b' ', b'.', b'(', b'-', b'\t', b', '])
+        elif t == 20:
+            out += long_word(r).encode('utf-8')
+        else:
+            out += word(r).encode('utf-8')
+    return out.replace(b'!', b'').replace(b'/', b'')
+
+
+def helper_text(r):
+    """What is typed in front of the helper key: words and punctuation, then one long word, then nothing / a blank / punctuation."""
+    pre = ''.join(r.choice([word(r) + ' ', r.choice(['(', ', ', '. ', '-', '+', ' ', '\t']), 'x ']) for _ in range(r.choice([0, 0, 1, 2])))
+    post = r.choice(['', '', '', '', ' ', '.', ' x', '(', '\t'])
+    return (pre + long_word(r) + post).replace('!', '').replace('/', '').encode('utf-8')
+
+
+def helper_insert(r, nlines):
+    t = r.below(10)
+    if t < 6:           # the long word is typed
+        entry = r.choice([b'i', b'a', b'A', b'I', b'o', b'O', b'cw', b'cc', b'S', b'C', b's', b'A', b'o'])
+        keys = r.choice([b'', b'', b'', b'2', b'3']) + entry + helper_text(r) + helper_keys(r)
+    elif t < 8:         # the long word (or the long indentation) is already on the line
+        keys = str(r.range(1, max(1, nlines))).encode() + b'G' + r.choice([b'A', b'A', b'$a', b'ea', b'Ea', b'wi', b'o', b'O', b'I', b'cc']) + helper_keys(r)
+    else:               # typed indentation, then lines under it
+        keys = r.choice([b'o', b'O', b'A\n']) + long_indent(r).encode() + b'x' + helper_keys(r) + b'\n' + helper_keys(r)
+    for _ in range(r.choice([0, 0, 1, 2])):
+        keys += r.choice([b'', b' ', b'\n']) + (helper_text(r) if r.chance(1, 2) else word(r).encode('utf-8')) + helper_keys(r)
+    return keys + ESC
+
+
+def helper_prompt(r):
+    """An ex / search / filter prompt (led_prompt, with history when the hist option is set) that is cancelled with ESC,
+    or an :ec command (harmless to execute) that enters the history."""
+    t = r.below(8)
+    w = long_word(r).encode('utf-8')
+    if t < 3:
+        return b':ec ' + w[:r.choice([5, 60, 64, 70, 126, 300, 480, 500])].decode('utf-8', 'ignore').encode('utf-8') + helper_keys(r).replace(b'\n', b'') + b'\n'
+    if t < 5:
+        return b':ec ' + w[:r.choice([0, 1, 3, 8])].decode('utf-8', 'ignore').encode('utf-8') + helper_keys(r).replace(b'\n', b'') + ESC
+    if t < 6:
+        return r.choice([b'/', b'?']) + w[:r.choice([3, 64, 128, 300])].decode('utf-8', 'ignore').encode('utf-8') + helper_keys(r).replace(b'\n', b'') + ESC
+    if t < 7:
+        return b':' + helper_keys(r).replace(b'\n', b'') + ESC
+    return r.choice([b'/', b'?']) + r.choice([b'a', b'x', '\u0627'.encode(), '\u4e2d'.encode()]) + ctl('a') + b'\n'
+
+
+TILDE_HOOKS = ['rx ~ tr a-z A-Z', 'rx ~ cat', 'rx ~ sort', 'p', 'ec hook', 'rs ~', 'pu ~', 's-a-b-']
+
+
+def helper_stream(r):
+    """A vi key stream made of insert-mode helper keys after long words.  Returns (atoms, files, rows, cols)."""
+    files = {}
+    lines = []
+    for _ in range(r.choice([0, 1, 2, 3, 5, 8])):
+        t = r.below(6)
+        if t < 2:
+            lines.append(text_line(r, 6))
+        elif t < 4:
+            lines.append(helper_text(r).decode('utf-8'))
+        elif t == 4:
+            lines.append(long_indent(r) + word(r))
+        else:
+            lines.append(long_indent(r))
+    if lines or r.chance(1, 2):
+        files['f.txt'] = ('\n'.join(lines) + ('\n' if lines else '')).encode('utf-8')
+    files['g.txt'] = b'second\nfile\n'
+    if r.chance(1, 4):              # a tags file: vi_help looks the word up (no tag command is ever typed)
+        tl = []
+        for wd in ['a', 'x', 'foo', 'é', '中', 'a' * 127, 'a' * 126, 'é' * 63]:
+            tl.append('%s\t%s\t/^%s/;" %s' % (wd, r.choice(['f.txt', 'n' * 200]), r.choice(['x', 'y' * 150]), r.choice(['info', 'i' * 140, 'é' * 70])))
+        files['tags'] = ('\n'.join(sorted(tl)) + '\n').encode('utf-8')
+    nl = max(1, len(lines))
+    rows = r.choice([2, 2, 3, 4, 5, 10, 24, 24, 50])
+    cols = r.choice([2, 3, 5, 8, 10, 20, 40, 80, 80, 200])
+    atoms = []
+    for _ in range(r.range(0, 3)):
+        atoms.append(b':se ' + r.choice(['ai', 'noai', 'hist=%d' % r.choice([0, 1, 2, 50]), 'td=%d' % r.choice([-2, -1, 1, 2]), 'hl', 'nohl', 'order', 'shape', 'ai']).encode() + b'\n')
+    hook = len(atoms) if r.chance(1, 8) else None
+    if hook is not None:            # the \~ register: vi_help runs it as an ex command with the line in register ~
+        atoms.append(b':rs \\~\n' + r.choice(TILDE_HOOKS).encode() + b'\n.\n')
+    for _ in range(r.choice([1, 2, 3, 5, 8, 12])):
+        t = r.below(20)
+        if t < 12:
+            atoms.append(helper_insert(r, nl))
+        elif t < 15:
+            atoms.append(helper_prompt(r))
+        elif t < 16:
+            atoms.append(r.choice([b'"ayy', b'yy', b'"ay$', b'"Ayy', b'dd', b'yw', b'"xyw']))
+        elif t < 17:
+            atoms.append(r.choice([b'.', b'u', ctl('r'), b'3.', b'u.']))
+        else:
+            atoms.append(vi_atom(r, nl))
+        if sum(len(a) for a in atoms) > 1500:       # every key redraws the line: a few thousand keys on lines of a thousand bytes take seconds
+            break
+    if hook is not None and tilde_cut(atoms, files) and not os.environ.get('C05_TILDE_CUT'):
+        del atoms[hook]
+    return atoms, files, rows, cols
+
+
+def tilde_cut(atoms, files):
+    """Classifier of one root cause on the unchanged tree (fixes/C05-helper-cut-char.patch, finding candidate
+    KF-HELPER-CUT-CHAR): with the \\~ register defined, ^A keeps the first 63 bytes of the register's answer in cmp[64]
+    (snprintf, so possibly the first bytes of a multi-byte character only) and a second ^A right after it inserts them;
+    the line then ends inside a character and the renderer reads past its end.  True when the stream defines the
+    register, types ^A ^A and contains a multi-byte character at all; the caller then leaves the register undefined
+    (C05_TILDE_CUT=1 in the environment keeps such streams, to test the repair)."""
+    keys = b''.join(atoms)
+    return b':rs \\~\n' in keys and b'\x01\x01' in keys and (any(b > 0x7f for b in keys) or any(b > 0x7f for v in files.values() for b in v))
+
+
+# ---------------------------------------------------------------------------------------------
+# :g / :v whose command replaces lines by MORE lines (round f: a global that marks freshly added lines never ends).
+# Small buffers, because the command runs once per marked line and filters start a shell each time.  Shell commands:
+# echo, cat, tr, sort (joined with ; or |) -- a filter gets the addressed lines as its input; without a range </dev/null.
+
+GWORDS = ['x', 'y', 'a', 'b', 'é', '中', 'هدف', 'ab', 'x y']
+
+
+def glob_filter(r):
+    """A shell command that prints k >= 0 lines (usually more than it reads), the last / first / none of them from GWORDS."""
+    t = r.below(12)
+    ws = [r.choice(GWORDS) for _ in range(r.choice([1, 2, 2, 3, 4]))]
+    if t < 5:
+        return '; '.join('echo ' + w for w in ws)
+    if t < 7:
+        return 'cat; ' + '; '.join('echo ' + w for w in ws[:2])
+    if t < 8:
+        return '; '.join('echo ' + w for w in ws[:2]) + '; cat'
+    if t < 9:
+        return r.choice(['tr a-z A-Z', 'tr x y', 'sort', 'sort -r', 'cat']) + '; echo ' + ws[0]
+    if t < 10:
+        return 'cat; cat f.txt'
+    if t < 11:
+        return '(' + '; '.join('echo ' + w for w in ws) + ') | ' + r.choice(['sort', 'sort -r', 'tr a-z A-Z', 'cat'])
+    return r.choice(['cat', 'sort', 'tr a-z A-Z', 'true', 'echo x'])
+
+
+def glob_body(r, depth=0):
+    t = r.below(20)
+    rng = r.choice(['.', '.', '.', '.,+1', '.-1,.', '.,.+2', '', '1', '$', '.,$'])
+    if t < 10:
+        return (rng or '.') + '!' + glob_filter(r)
+    if t < 12:
+        return 's/' + r.choice(['x', 'a', 'é', '$', '^']) + '/' + r.choice(['y', 'x', '&&']) + '/|' + (rng or '.') + '!' + glob_filter(r)
+    if t < 13:
+        return rng + 'r !(' + glob_filter(r) + ') </dev/null'
+    if t < 14:
+        return rng + r.choice(['pu', 'pu a', 'y a', 'd', 'd a', 'k a', 'p'])
+    if t < 15 and depth == 0:
+        return rng + r.choice(['g', 'v']) + '/' + r.choice(GWORDS) + '/' + (glob_body(r, 1) or 'p')
+    if t < 16:
+        return rng + r.choice(['w !cat', 'w !sort', '='])
+    return None                     # the change command with a text block (the caller adds the block)
+
+
+def glob_script(r):
+    """An ex script around :g / :v commands that turn one line into several.  Returns (lines, files)."""
+    n = r.choice([1, 2, 2, 3, 4, 5, 6, 8, 12])
+    flines = []
+    for _ in range(n):
+        t = r.below(8)
+        flines.append(r.choice(GWORDS) if t < 5 else (r.choice(GWORDS) + ' ' + r.choice(GWORDS) if t < 7 else ''))
+    files = {'f.txt': ('\n'.join(flines) + '\n').encode('utf-8'), 'g.txt': b'second\nfile\n', 'cmds.ex': b'p\n'}
+    out = []
+    if not r.chance(1, 6):
+        out.append(r.choice(['se wa', 'se wa', 'se writeany']))
+    for _ in range(r.choice([1, 1, 2, 3])):
+        a = r.choice(['', '', '%', '1,$', '2,$', '1,%d' % r.range(1, n), '%d,%d' % (r.range(1, n), r.range(1, n)), '.,$', '2,4', "'a,$", '1;+1'])
+        g = r.choice(['g', 'g', 'g', 'v', 'g!', 'global'])
+        pat = r.choice(GWORDS + ['.', '^', '$', '[xy]', 'x|y', '^x', 'a$', 'x*y', '[^x]'])
+        body = glob_body(r)
+        if body is None:
+            rng = r.choice(['', '', '.', '.,+1', '.-1,.'])
+            out.append(a + g + '/' + pat + '/' + rng + r.choice(['c', 'c', 'change']))
+            out += [r.choice(GWORDS) for _ in range(r.choice([0, 1, 2, 2, 3, 4]))] + ['.']
+            for _ in range(r.choice([0, 2, 6])):                  # further blocks for the next matching lines
+                out += [r.choice(GWORDS) for _ in range(r.choice([0, 2, 3]))] + ['.']
+        else:
+            out.append(a + g + '/' + pat + '/' + body)
+        k = r.below(8)
+        if k == 0:
+            out.append(r.choice(['u', 'u', 'redo', '%p', '1ka', 'w', 'w out.txt', '%y a', 'e!']))
+        elif k == 1:
+            out.append(simple_cmd(r, n, 1))
+    out = [l if path_safe(l) else 'p' for l in out]
+    return [l.encode('utf-8') for l in out], files
 
 
 def vi_stream(r):
